@@ -21,7 +21,7 @@ RULE = (
     "non-trivial = A non-zero; distinct = sha1(input, group)"
 )
 BOUNDS = {
-    "quick": "m,n<=4, all ranks, all compositions, values {4,2,1,1/2} (gap >= 2^-1 above threshold), 3 factor kinds; laws on 6x6 pairs of invertible factors per size n<=3; Moore on all n<=3 compositions x sign patterns",
+    "quick": "m,n<=4 (+ whole-matrix scalings 2^-40, 2^20, 2^30), all ranks, all compositions, values {4,2,1,1/2} (gap >= 2^-1 above threshold), 3 factor kinds; laws on 6x6 pairs of invertible factors per size n<=3; Moore on all n<=3 compositions x sign patterns",
     "thorough": "m,n<=6, laws n<=5",
 }
 WALL_BUDGET = {"quick": 300, "thorough": 2400}
@@ -36,6 +36,9 @@ def cases(tier, seed):
         for vals, comp, r in SG.spectra(p):
             for kU, kV in SG.FACTOR_KINDS:
                 out.append({"key": f"rank/{m}x{n}/r={r}/c={'-'.join(map(str, comp)) or '0'}/{kU}", "grp": "rank", "m": m, "n": n, "vals": vals, "kU": kU, "kV": kV})
+            if r >= 1:
+                for e in (-40, 20, 30):  # whole-matrix scalings ~1e-12, 1e6, 1e9: thresholds are relative
+                    out.append({"key": f"rank/{m}x{n}/r={r}/c={'-'.join(map(str, comp))}/hh/scale=2^{e}", "grp": "rank", "m": m, "n": n, "vals": vals, "kU": "hh", "kV": "hh", "scale": e})
     L = 3 if tier == "quick" else 5
     for n in range(1, L + 1):
         for a, b in itertools.product(range(6), repeat=2):
@@ -84,12 +87,15 @@ def run_case(case, seed):
     if grp == "rank":
         m, n, vals = case["m"], case["n"], case["vals"]
         A, Uq, Vq = SG.build(m, n, vals, case["kU"], case["kV"], fill, variant=len(case["key"]))
+        if case.get("scale"):
+            A = np.ldexp(A, case["scale"])
+            vals = [float(np.ldexp(v, case["scale"])) for v in vals]
         info = SG.cluster_info(vals, m, n)
         r = info["rank"]
         tags = {"grp": "rank", **info, "m": m, "n": n}
         Aq = G.to_quat(A)
         before = Aq.tobytes()
-        nA = max(O.fro(A), 1.0)
+        nA = max(O.fro(A), 1.0) if not case.get("scale") else O.fro(A)
         ok, rk = call(u.rank, Aq)
         if not ok:
             fails.append(fail("raised", f"rank: {rk}", fn="rank", **tags))
